@@ -362,7 +362,7 @@ def register_edits(B, ctx, edits, asm_hook=None):
                 from gtirb_rewriting import AllBlocksScope, BlockPosition
 
                 done_groups.add(e["all"])
-                ctx.register_insert(AllBlocksScope(BlockPosition.ENTRY), mk(e))
+                ctx.register_insert(AllBlocksScope(BlockPosition.EXIT if e.get("exit") else BlockPosition.ENTRY), mk(e))
             continue
         if e["op"] == "insert":
             ctx.insert_at(blk, e["off"], mk(e))
@@ -472,6 +472,8 @@ def gen_case(rng, nblocks=None, with_data=True, with_funcs=True, nedits=None, cf
             d = {"kind": "data", "bytes": [rng.randrange(256) for _ in range(nb)], "syms": syms}
             if nb == 8 and code_labels and rng.random() < 0.5:
                 d["symexprs"] = [[0, rng.choice(code_labels), rng.choice([0, 0, 8, 16])]]
+            if rng.random() < 0.3:
+                d["comments"] = sorted([k, "d%d_%d" % (i, k)] for k in set(rng.randrange(nb) for _ in range(rng.randint(1, 2))))
         text.append(d)
     # mark entries: first block of each function
     seen = set()
@@ -634,7 +636,18 @@ def gen_edits(rng, case, nedits=None):
     code = [i for i, d in enumerate(text) if d["kind"] == "code"]
     if code and auto and rng.random() < 0.1:
         asm = rng.choice(["nop", "movl $%d, %%eax" % fresh_imm(rng), "pushq %rax\n.cfi_adjust_cfa_offset 8\npopq %rax\n.cfi_adjust_cfa_offset -8"])
-        group = [{"op": "insert", "block": i, "off": 0, "asm": asm, "all": 1} for i in code]
+        if rng.random() < 0.5:
+            group = [{"op": "insert", "block": i, "off": 0, "asm": asm, "all": 1} for i in code]
+        else:
+            # BlockPosition.EXIT: in front of the block's terminator, at the end when it has none
+            group = []
+            for i in code:
+                offs = block_layout(text[i])
+                term = text[i]["insns"] and text[i]["insns"][-1][0] in ("jmp", "jcc", "call", "ret")
+                group.append({"op": "insert", "block": i, "off": offs[-2] if term else offs[-1], "asm": asm, "all": 1, "exit": True})
+        # requests must not overlap: a range that covers a member's offset from the inside makes way
+        at = {m["block"]: m["off"] for m in group}
+        edits = [e for e in edits if not (e["block"] in at and e.get("len", 0) and e["off"] < at[e["block"]] < e["off"] + e["len"])]
         k = rng.randint(0, len(edits))
         edits[k:k] = group
     return edits
